@@ -653,7 +653,9 @@ static void look_proc(struct hwloc_backend *backend, struct procinfo *infos, uns
   cpuid_or_from_dump(&eax, &ebx, &ecx, &edx, src_cpuiddump);
   infos->apicid = ebx >> 24;
   if (edx & (1 << 28)) {
-    legacy_max_log_proc = 1 << hwloc_flsl(((ebx >> 16) & 0xff) - 1);
+    unsigned nb_log_proc = (ebx >> 16) & 0xff;
+    /* some hypervisors report 0 logical processors with HTT set, the shift below would be undefined */
+    legacy_max_log_proc = nb_log_proc ? 1U << hwloc_flsl(nb_log_proc - 1) : 1;
   } else {
     hwloc_debug("HTT bit not set in CPUID 0x01.edx, assuming legacy_max_log_proc = 1\n");
     legacy_max_log_proc = 1;
